@@ -192,8 +192,11 @@ class Rec:
     def tok(self, b):
         return self.toks.setdefault(bytes(b), len(self.toks))
 
+    WAITER_FUTURES = ("ping", "wait_connected", "wait", "shield")   # created by protocol.py's waiters / Event.wait
+
     def futset(self, f):
-        self.emit(op="futset", f=f._c19_id, n=f._c19_n, creator=f._c19_creator)
+        if f._c19_creator in self.WAITER_FUTURES:
+            self.emit(op="futset", f=f._c19_id, n=f._c19_n, creator=f._c19_creator)
 
     def loop_exception(self, ctx):
         e = ctx.get("exception")
@@ -228,6 +231,7 @@ class Runner:
         self.steps = 0
         self.creating = None
         self.tasks = []
+        self.keep = []                  # writers stay referenced: StreamWriter.__del__ would close (send FIN) at a GC-chosen moment
         self.spin = 0
 
     # -- observation hooks ------------------------------------------------------
@@ -405,6 +409,7 @@ class Runner:
 
     async def stream_roundtrip(self, proto, cl, n, chunk, srnd):
         reader, writer = await proto.create_stream()
+        self.keep.append(writer)
         sid = writer.get_extra_info("stream_id")
         down = proto._c19_side == "s"
         await self.write_all(writer, cl, sid, down, n, chunk, srnd)
@@ -438,6 +443,7 @@ class Runner:
         self.spawn(self.server_stream(reader, writer))
 
     async def server_stream(self, reader, writer):
+        self.keep.append(writer)
         adapter = writer.transport
         proto = adapter.protocol
         sid = adapter.stream_id
@@ -505,6 +511,7 @@ class Runner:
 
     def client_stream_handler(self, reader, writer):
         # streams opened by the server: read them to EOF
+        self.keep.append(writer)
         adapter = writer.transport
         proto = adapter.protocol
         srnd = random.Random(self.sc["sched"]["seed"] * 1000 + adapter.stream_id)
